@@ -258,7 +258,14 @@ func runStress(seed int64) Result {
 	// on the first ApplyDefaults / Validate would be written concurrently)
 	for round := 0; round < 12; round++ {
 		var fs jsonschema.Schema
-		json.Unmarshal([]byte(`{"properties":{"a":{"default":1},"r":{"default":"never"},"o":{"properties":{"x":{"default":"d"}},"required":["y"]}},
+		// (cfg: absent from the instance and without a default of its own - whether it is created depends on defaults
+		// found DEEP below it, past many default-less members: a look-ahead that is answered before it is finished,
+		// or cached half-done, gives some of the concurrent first calls {} instead)
+		wide := ""
+		for i := 0; i < 40; i++ {
+			wide += fmt.Sprintf(`"n%d":{"properties":{"x%d":{"properties":{"y":{"type":"integer"}}}}},`, i, i)
+		}
+		json.Unmarshal([]byte(`{"properties":{"cfg":{"properties":{`+wide+`"inner":{"properties":{"m":{"properties":{"z":{"default":1}}}}}}},"a":{"default":1},"r":{"default":"never"},"o":{"properties":{"x":{"default":"d"}},"required":["y"]}},
 		  "required":["r","q1","q2","q3","q4","q5","q6","q7","q8"],"minProperties":1,"maxProperties":9,"patternProperties":{"^z":{"pattern":"^a"}}}`), &fs)
 		frs, err := fs.Resolve(nil)
 		if err != nil {
@@ -271,7 +278,7 @@ func runStress(seed int64) Result {
 				defer wg0.Done()
 				var inst any = map[string]any{"o": map[string]any{}}
 				err := frs.ApplyDefaults(&inst)
-				want := map[string]any{"a": 1.0, "o": map[string]any{"x": "d"}}
+				want := map[string]any{"a": 1.0, "o": map[string]any{"x": "d"}, "cfg": map[string]any{"inner": map[string]any{"m": map[string]any{"z": 1.0}}}}
 				if err != nil || !reflect.DeepEqual(inst, want) {
 					mu.Lock()
 					addFail("concurrent-first-defaults", "first ApplyDefaults on a fresh Resolved", want, fmt.Sprint(inst, err))
